@@ -85,6 +85,12 @@ class Report:
             "known_findings_matched": known_hit,
             "notes": self.notes,
         }
+        try:
+            import armi
+
+            cov["armi_path"] = os.path.dirname(armi.__file__)
+        except Exception:
+            pass
         if self.exhaustive is not None:
             cov["exhaustive"] = self.exhaustive
         cov.update(self.extra)
